@@ -220,7 +220,10 @@ where
     #[allow(clippy::should_implement_trait)]
     #[inline]
     pub fn next(&mut self) -> Option<Result<(&mut R, O), E>> {
-        self.done_recv.recv().unwrap().map(move |result| {
+        // If the channel is closed without the end of the input having been signalled,
+        // the reader thread has stopped (e.g. because `reader_init` failed; the error is
+        // then returned by `read_parallel_init`) -> there is nothing more to return.
+        self.done_recv.recv().ok().flatten().map(move |result| {
             match result {
                 Ok((r, o)) => {
                     let prev_rset = ::std::mem::replace(&mut self.current_recordset, r);
